@@ -5,6 +5,7 @@
 #include "private_access.h"
 #include <unistd.h>
 #include <sys/wait.h>
+#include <sys/resource.h>
 #include "momo/HashMultiMap.h"
 #include "momo/Array.h"
 #include "momo/SegmentedArray.h"
@@ -33,7 +34,7 @@ template<class Snap, class F> static void call(std::string& out, Snap snap, F f)
 	std::string before = snap(), res;
 	try { res = f(); }
 	catch (const std::invalid_argument&) { out += (snap() == before) ? "R " : "C!rejected-call-changed-container "; return; }
-	catch (const std::exception& e) { out += std::string("X") + typeid(e).name() + " "; return; }
+	catch (const std::exception&) { out += (snap() == before) ? "X " : "C!exception-changed-container "; return; }   // length_error / bad_alloc ...
 	out += "A" + res + " ";
 }
 
@@ -110,6 +111,7 @@ template<class A> static std::string runARH(std::vector<std::pair<std::string, A
 		else if (n == "addback") call(out, snap, [&] { arr.AddBack(int(a[0])); twin.push_back(int(a[0])); return std::string(); });
 		else if (n == "rmback") call(out, snap, [&] { arr.RemoveBack(size_t(a[0])); twin.resize(twin.size() - size_t(a[0])); return std::string(); });
 		else if (n == "ins") call(out, snap, [&] { arr.Insert(size_t(a[0]), int(a[1])); twin.insert(twin.begin() + a[0], int(a[1])); return std::string(); });
+		else if (n == "insn") call(out, snap, [&] { arr.Insert(size_t(a[0]), size_t(a[1]), int(a[2])); twin.insert(twin.begin() + a[0], size_t(a[1]), int(a[2])); return std::string(); });
 		else if (n == "rm") call(out, snap, [&] { arr.Remove(size_t(a[0]), size_t(a[1])); twin.erase(twin.begin() + a[0], twin.begin() + a[0] + a[1]); return std::string(); });
 		else if (n == "clear") call(out, snap, [&] { arr.Clear(); twin.clear(); return std::string(); });
 		else if (n == "setcount") call(out, snap, [&] { arr.SetCount(size_t(a[0])); twin.resize(size_t(a[0])); return std::string(); });
@@ -197,6 +199,11 @@ int main()
 		pid_t pid = fork();
 		if (pid == 0)
 		{
+			// a runaway case (e.g. a mutant that loops or reserves without bound) must not take the machine down
+#if !defined(__SANITIZE_ADDRESS__)
+			struct rlimit rl; rl.rlim_cur = rl.rlim_max = rlim_t(2) << 30; setrlimit(RLIMIT_AS, &rl);
+#endif
+			alarm(30);
 			close(fd[0]);
 			std::string res = dispatch(line);
 			if (write(fd[1], res.data(), res.size()) < 0) _exit(4);
